@@ -30,7 +30,9 @@ def universe():
     return out
 
 
-BIG_LOCAL = [2 ** 32, 2 ** 32 + 1, 5 * 10 ** 9, 10 ** 10, 10 ** 10 + 1, 99999999999, 2 ** 63, 2 ** 64 - 1, 2 ** 64, 10 ** 25, 20260921141320, 20260921141321, 9 * 10 ** 24]
+BIG_LOCAL = [2 ** 32, 2 ** 32 + 1, 5 * 10 ** 9, 10 ** 10, 10 ** 10 + 1, 99999999999, 2 ** 63, 2 ** 64 - 1, 2 ** 64, 10 ** 25, 20260921141320, 20260921141321, 9 * 10 ** 24,
+             # no integer type holds these: u128 ends at 3.4e38
+             2 ** 128 - 1, 2 ** 128, 5 * 10 ** 39, 10 ** 40, 10 ** 40 + 1, 3 * 10 ** 59, 10 ** 60, 7 * 10 ** 99, 10 ** 100]
 
 
 def random_large(rng, n):
